@@ -32,6 +32,8 @@ func verifC13Ledger() {
 	c := st.c
 	p := &protocolV2{nsqd: st.n}
 	finished, emptied := uint64(0), uint64(0)
+	preFin, preReq := cl.FinishCount, cl.RequeueCount
+	didFin, didReq := uint64(0), uint64(0)
 	known := st.all()
 	fresh := func(tag string) *Message {
 		// message ids are unique per topic (C12): a newly published message differs from all others
@@ -70,6 +72,7 @@ func verifC13Ledger() {
 			_, err := p.FIN(cl, [][]byte{[]byte("FIN"), id[:]})
 			if err == nil {
 				finished++
+				didFin++
 			}
 		case 4: // REQ for any id, immediate or delayed
 			id := MessageID{}
@@ -78,7 +81,9 @@ func verifC13Ledger() {
 			if verifrt.Bool("req-delayed") {
 				d = []byte("5")
 			}
-			p.REQ(cl, [][]byte{[]byte("REQ"), id[:], d})
+			if _, err := p.REQ(cl, [][]byte{[]byte("REQ"), id[:], d}); err == nil {
+				didReq++
+			}
 		case 5:
 			c.processInFlightQueue(verifrt.Int64("scan-t"))
 		case 6:
@@ -104,6 +109,8 @@ func verifC13Ledger() {
 			}
 			verifrt.Assert(k.InFlightCount == owned, "consumer-in-flight-count-equals-messages-it-holds")
 		}
+		verifrt.Assert(cl.FinishCount == preFin+didFin, "consumer-finish-count-equals-its-accepted-fins")
+		verifrt.Assert(cl.RequeueCount == preReq+didReq, "consumer-requeue-count-equals-its-accepted-reqs")
 		st.assertInvariants("ledger")
 	}
 	verifrt.Reach("something-finished", finished > 0)
@@ -237,3 +244,8 @@ func verifC13Stats() {
 // Counters under an answer racing the timeout scan (shared with C02): no count negative, the
 // timeout counter and the consumer's in-flight count match what actually happened.
 func VerifC13_AnswerVsScanCounters() { verifAnswerVsScan() }
+
+// Per-channel accounting needs per-channel message objects: the fan-out (also of a deferred
+// publish) gives every channel its own object, so one channel's owner / attempts / in-flight
+// bookkeeping cannot leak into another's counters (shared with C01).
+func VerifC13_FanOutKeepsChannelsApart() { verifTopicPumpFanOut() }
